@@ -14,6 +14,7 @@ import (
 
 	"xpcheck/internal/load"
 	"xpcheck/internal/report"
+	"xpcheck/internal/selfcheck"
 	"xpcheck/rules"
 )
 
@@ -24,8 +25,15 @@ func main() {
 	evdir := flag.String("evidence-dir", "/verif/evidence", "evidence directory")
 	known := flag.String("known", "/verif/known_findings.json", "known findings file")
 	overlay := flag.String("overlay", "", "comma list of <repo-relative file>=<replacement file> (analysis of a variant without touching the tree)")
+	self := flag.Bool("selfcheck", false, "run the positive controls of the engine and exit")
+	checkerDir := flag.String("checker-dir", "/verif/checker", "checker module directory (positive controls, mutants)")
 	flag.Parse()
 	start := time.Now()
+	if *self {
+		os.Exit(runSelfcheck(*checkerDir))
+	}
+	checkerDirFlag, knownFlag = *checkerDir, *known
+	mutantsFileFlag = filepath.Join(filepath.Dir(*checkerDir), "selftest", "mutants.json")
 	if t := os.Getenv("VERIF_TIER"); t != "" && *tier == "" {
 		*tier = t
 	}
@@ -103,5 +111,35 @@ func runOne(p *load.Program, id, tier string, seed int64, evdir string, kf []rep
 		}
 	}()
 	pr.Run(&rules.Ctx{P: p, R: r, Tier: tier})
+	if tier == "thorough" && len(p.Overlay) == 0 {
+		thorough(p, r, id)
+	}
 	return r.Finish(ev, kf)
 }
+
+// thorough adds the engine's positive controls and the variant (mutation)
+// matrix of the property to the report.
+func thorough(p *load.Program, r *report.Report, id string) {
+	r.Rule("T.controls", "positive controls: every rule family fires on its tiny violating program and stays silent on the conforming one", 10, "a control that does not fire means the checker itself is broken")
+	rs, err := selfcheck.Run(checkerDirFlag)
+	if err != nil {
+		r.Unknown("positive controls", "", "cannot run: "+err.Error())
+	}
+	for _, c := range rs {
+		r.Check(c.OK, "control: "+c.Name, "checker/testdata/positive/controls.go", c.Detail, "the engine no longer behaves as the control expects: "+c.Detail)
+	}
+	res, sum := runMutants(id, p.Dir, mutantsFileFlag, knownFlag, 6)
+	r.Extra["variant_matrix"] = map[string]any{
+		"what":    "source variants of /repo analysed through a go/packages overlay (the tree is not modified): breaking variants must be reported by the named rule, behaviour-preserving (neutral) variants must stay silent; skipped = the site changed on this tree",
+		"summary": sum,
+		"results": res,
+	}
+	fmt.Printf("%s thorough: variants %v\n", id, sum)
+	for _, m := range res {
+		if m.Status == "survived" || m.Status == "false-alarm" {
+			fmt.Printf("SELFTEST-NOTE property=%s variant=%s status=%s (recorded in evidence; not a verdict about the tree)\n", id, m.ID, m.Status)
+		}
+	}
+}
+
+var checkerDirFlag, mutantsFileFlag, knownFlag string
